@@ -73,7 +73,15 @@ def main(tier, seed, replay=None):
         seq = copy.deepcopy(c)
         seq["ctor"] = SEQ_OF[ctor]
         pars = []
-        for t in (threads if i % 4 == 0 else rng.sample(threads, 2)):
+        # three nonlinear parameters (the most any family has) against pools of 1..4 threads for the first groups: work splits that
+        # do not divide the columns evenly
+        force3 = i < 4
+        if force3 and c["meta"]["P"] != 3:
+            c = gen_problem(rng, ctor=ctor, quant=None, family="exp3")
+            c["ops"] = states.observe_at(rng, c, nsets=2) + [["into_seq"], ["observe"], ["jac_quiet"]]
+            seq = copy.deepcopy(c)
+            seq["ctor"] = SEQ_OF[ctor]
+        for t in ([1, 2, 3, 4] if force3 else threads if i % 4 == 0 else rng.sample(threads, 2)):
             for jitter in (False, True):
                 p = copy.deepcopy(c)
                 p["threads"] = t
